@@ -53,6 +53,17 @@ def run(tier):
             tasks.append({"op": "api_solve", "grid": np.full(sh, v0), "gridsize": d, "origin": o,
                           "sources": [src[a] + o[a] for a in range(nd)], "nsweep": int(r.choice([2, 3])), "grad": False,
                           "meta": {"nd": nd, "shape": sh, "d": d, "cls": cls, "v": v0, "src": src, "origin": o}})
+        if mode == "jit":
+            # targeted: 3-D models large enough for the 3-D operator to dominate, every pair of axes with unequal spacings
+            # (with equal spacings a mix-up of the per-axis constants of the 3-D operator is invisible)
+            for d in [(1.0, 2.0, 1.0), (2.0, 1.0, 1.0), (1.0, 1.0, 2.0), (1.5, 2.0, 1.0), (1.0, 2.0, 1.5), (2.0, 1.5, 1.0)]:
+                for corner in (True, False):
+                    sh = (12, 12, 12)
+                    src = (0.0, 0.0, 0.0) if corner else tuple(0.4 * sh[a] * d[a] + 0.3 * d[a] for a in range(3))
+                    tasks.append({"op": "api_solve", "grid": np.full(sh, 2.0), "gridsize": d, "origin": (0.0, 0.0, 0.0),
+                                  "sources": list(src), "nsweep": 2, "grad": False,
+                                  "meta": {"nd": 3, "shape": sh, "d": d, "cls": "corner" if corner else "interior", "v": 2.0,
+                                           "src": src, "origin": (0.0, 0.0, 0.0), "targeted": "aniso3d"}})
         res = C.run_impl(tasks, mode, timeout=3000)
         for t, o in zip(tasks, res):
             m = t["meta"]
